@@ -2,7 +2,7 @@ import Verif.Model.FailClosed
 /-!
   Line-protocol driver for C17 (fail-closed issuance).
 
-    run op=<op> e=<n> a=<n> db=<1|0> chk=<i|-> faults=<pos:kind,…|-> sub=…
+    run op=<op> e=<n> a=<n> [ch=<n> n=<n> crl=<0|1>] db=<1|0> chk=<i|-> faults=<pos:kind,…|-> sub=…
         → <ok|err> got=<cert|ack|none> tok=Δ stored=Δ data=Δ rev=Δ reuse=<ok|err|na> fc=ok trace=<kind:outcome,…|->
       (ACME: … acme=Δ valid=<0|1> instead of rev / reuse)
     src fn=<go function>
@@ -20,7 +20,7 @@ def op? : String → Option Op
   | "sign" => some .sign | "renew" => some .renew | "rekey" => some .rekey
   | "revoke" => some .revoke | "revokemtls" => some .revokeMTLS
   | "sshsign" => some .sshSign | "sshrenew" => some .sshRenew | "sshrekey" => some .sshRekey
-  | "sshrevoke" => some .sshRevoke | "acme" => some .acmeFinalize
+  | "sshrevoke" => some .sshRevoke | "acme" => some .acmeFinalize | "scep" => some .scepEnroll
   | _ => none
 
 def outcome? : String → Option Outcome
@@ -56,7 +56,8 @@ def evalRun (kv : List (String × String)) : Option String := do
   let g : Nat → Bool := fun i => some i != chk
   let db := (lookup kv "db").getD "1" != "0"
   let e : Env := { f := faultFn fs, g := g, db := db }
-  let c : Cfg := ⟨ne, na⟩
+  let nat (k : String) : Nat := ((lookup kv k).bind String.toNat?).getD 0
+  let c : Cfg := { e := ne, a := na, ch := nat "ch", n := nat "n", crl := nat "crl" != 0 }
   let d0 : Durable := {}
   let r := runOp e op c d0
   let d := r.1.d
@@ -79,14 +80,14 @@ def evalRun (kv : List (String × String)) : Option String := do
     runs of in-process checks (the extractor reports adjacent checks once) -/
 def collapse : List Kind → List Kind
   | a :: b :: rest =>
-    if a = b ∧ (a.isWebhook ∨ a = .check ∨ a = .acmeRead) then collapse (b :: rest) else a :: collapse (b :: rest)
+    if a = b ∧ (a.isWebhook ∨ a = .check ∨ a = .req .acmeRead) then collapse (b :: rest) else a :: collapse (b :: rest)
   | l => l
 
 def toks (ks : List Kind) : List String := (collapse ks).map fun k => k.str ++ k.guard
 
 def renderSrc (ks : List Kind) : String := ",".intercalate (toks ks ++ ["ret"])
 
-def one : Cfg := ⟨1, 1⟩
+def one : Cfg := { e := 1, a := 1, ch := 1, n := 1, crl := true }
 
 def evalSrc (fn : String) : String :=
   match fn with
@@ -106,6 +107,19 @@ def evalSrc (fn : String) : String :=
     --  — serial index, order read-back — are in acme/db/nosql and appear in the run traces)
     ",".intercalate (["status!", "ret"] ++ toks (finalizePre 1) ++ ["sign!"] ++
       toks (createCertificateSteps.take 1 ++ updateOrderSteps.drop 1) ++ ["ret"])
+  | "FinalizeOrder" =>
+    -- the handler's own part of `finalizeHandlerPre` (payload checks, order read; the
+    -- ownership comparisons are not calls), then Order.Finalize, then the success response
+    ",".intercalate (toks ((finalizeHandlerPre.drop 4).take 2) ++ ["finalize!", "ret"])
+  | "PKIOperation" =>
+    -- parse + decrypt; ValidateChallenge; SignCSR; in its error branch NotifyFailure (ignored);
+    -- NotifySuccess (ignored); the reply
+    ",".intercalate (toks [.check] ++ ["validate!", "signCSR!"] ++ toks [.notify] ++ toks [.notify] ++ ["ret"])
+  | "SignCSR" =>
+    ",".intercalate (toks (signCSRSteps one |>.take 1) ++ ["sign!"] ++ toks (signCSRSteps one |>.reverse |>.take 2) ++ ["ret"])
+  | "Validate" =>
+    -- challengeValidationController.Validate: the first webhook error returns
+    ",".intercalate (toks [.check] ++ toks [.challenge] ++ ["ret"])
   | "DoWithContext" =>
     -- the client's decision table: first attempt × second attempt → allowed?
     let os := [Outcome.ok, .error, .timeout, .deny, .malformed]
